@@ -615,6 +615,9 @@ def _run_path(interp, reg, c, func, rep):
     # positional order of the real function
     code = func.__code__
     names = list(code.co_varnames[:code.co_argcount + code.co_kwonlyargcount])
+    # (parameters that were renamed since the contract was written are known by their pinned names: frontend)
+    _renamed = getattr(frontend.funcinfo_of(func).node, '_pv_renamed_params', None) or {}
+    names = [_renamed.get(n, n) for n in names]
     missing = [n for n in names[:code.co_argcount] if n not in args]
     if missing:
         defaults = func.__defaults__ or ()
